@@ -67,9 +67,9 @@ def decl(file, header, attrs=None, rewrites=None, container=None):
 GROUPS = ['t57_gstate', 't59_path', 't60_paint', 't61_clip', 't74_colour', 't77_shading', 't87_xobject', 't92_inline',
           't105_textstate', 't107_textobj', 't108_textpos', 't109_textshow', 't113_type3', 't320_marked', 't32_compat']
 
-A0 = 'args.rest()'
+A0 = 'args.v@'
 II = 'inline_image_spec(*old(lexer)).0'
-OUT = 'final(self).ops@.skip(old(self).ops@.len() as int)'
+OUT = 'appended(old(self).ops@, final(self).ops@)'
 
 ADD_ENSURES = [
     # Annex A: every keyword with well-formed operands is accepted and appends exactly the operations of its table row
@@ -82,7 +82,7 @@ ADD_ENSURES = [
     ('unknown_ops', '(group_of(op@) == 0 && op@ != "Do0"@) ==> ((r is Err <==> !old(self).compability_section) && %s.len() == 0)' % OUT),
     # nothing already recorded is touched; an operator that fails records nothing (the two text-showing shorthands may
     # have recorded their leading part); BX/EX only switch the mode; only BI reads from the lexer
-    ('frame', 'final(self).ops@.len() >= old(self).ops@.len() && final(self).ops@.take(old(self).ops@.len() as int) =~= old(self).ops@'
+    ('frame', 'prefix_kept(old(self).ops@, final(self).ops@)'
               ' && ((r is Err && op@ != "\'"@ && op@ != "\\""@) ==> %s.len() == 0)'
               ' && final(self).compability_section == (if op@ == "BX"@ { true } else if op@ == "EX"@ { false } else { old(self).compability_section })'
               ' && *final(lexer) == (if op@ == "BI"@ { inline_image_spec(*old(lexer)).1 } else { *old(lexer) })' % OUT),
@@ -96,11 +96,11 @@ ADD_REWRITES = [
     {'rule': 'R8', 'find': 'let ops = &mut self.ops; let mut push = move |op| ops.push(op);', 'replace': ''},
     {'rule': 'R8', 'regex': r'(?<![\w.])push\(', 'count': '*', 'replace': 'self.ops.push('},
     # R9: last two arms (binding + guard, wildcard) close the chain
-    {'rule': 'R9', 'find': 'o if !self.compability_section => {', 'replace': ' } else if !self.compability_section {'},
-    {'rule': 'R9', 'find': '}, _ => {} }', 'replace': '} else {}'},
+    {'rule': 'R9', 'find': 'o if !self.compability_section => {', 'replace': ' } else if !self.compability_section { proof { lemma_kw_unknown(op@); }'},
+    {'rule': 'R9', 'find': '}, _ => {} }', 'replace': '} else { proof { lemma_kw_unknown(op@); } }'},
 ] + r9('op') + [
     # R7: float negation
-    {'rule': 'R7', 'regex': r'leading:\s*-\s*(translation\.y)', 'replace': r'leading: f32_neg(\1)'},
+    {'rule': 'R7', 'regex': r'(?<![\w.)\]])-\s*(translation\.\w+)', 'count': '*', 'replace': r'f32_neg(\1)'},
     {'rule': 'R7', 'regex': r'(\bi) as f32', 'replace': r'cast_i32_f32(\1)'},
     # R7: iterator adaptor chain of `d`
     {'rule': 'R7', 'regex': r'(p\.as_array\(\)\?)\.iter\(\)\.map\(\|p\|\s*p\.as_number\(\)\)\.collect::<Result<Vec<f32>,\s*PdfError>>\(\)',
@@ -117,7 +117,7 @@ ADD_REWRITES = [
 UNIT = {
  'name': 'ops',
  'doc': 'Content-stream operator table (parse side): OpBuilder::add/parse and operand helpers vs ISO 32000-1 Annex A',
- 'rlimit': 100, 'timeout': 1500,
+ 'rlimit': 150, 'timeout': 1500,
  'items': {
   'macro names': decl(F, r'^macro_rules! names$'),
   'macro numbers': decl(F, r'^macro_rules! numbers$'),
@@ -143,6 +143,21 @@ UNIT = {
       {'rule': 'R2', 'find': 'compability_section:', 'replace': 'pub compability_section:'},
       {'rule': 'R2', 'find': 'ops:', 'replace': 'pub ops:'}]),
 
+  # ---- pdf/src/primitive.rs: the accessors the operand helpers rely on ----
+  'Primitive::get_debug_name': {'kind': 'fn', 'file': P, 'container': IMPL_PRIM, 'name': 'get_debug_name', 'props': ['C08']},
+  'Primitive::as_integer': {'kind': 'fn', 'file': P, 'container': IMPL_PRIM, 'name': 'as_integer', 'props': ['C08'],
+     'ensures': [('integer_only', 'match *self { Primitive::Integer(n) => r == Ok::<i32, PdfError>(n), _ => r is Err }')]},
+  'Primitive::as_number': {'kind': 'fn', 'file': P, 'container': IMPL_PRIM, 'name': 'as_number', 'props': ['C08'],
+     'ensures': [('number_value', 'is_num(*self) ==> r == Ok::<f32, PdfError>(num_of(*self))'),
+                 ('else_err', '!is_num(*self) ==> r is Err')],
+     'rewrites': [{'rule': 'R7', 'regex': r'(\bn) as f32', 'replace': r'cast_i32_f32(\1)'}]},
+  'Primitive::as_array': {'kind': 'fn', 'file': P, 'container': IMPL_PRIM, 'name': 'as_array', 'props': ['C08'],
+     'ensures': [('array_only', 'match *self { Primitive::Array(v) => (r matches Ok(s) && s@ == v@), _ => r is Err }')],
+     'rewrites': [{'rule': 'R7', 'find': 'Ok(v)', 'replace': 'Ok(vec_as_slice(v))'}]},
+  'Primitive::into_name': {'kind': 'fn', 'file': P, 'container': IMPL_PRIM, 'name': 'into_name', 'props': ['C08'],
+     'ensures': [('name_only', 'match self { Primitive::Name(s) => r == Ok::<Name, PdfError>(Name(s)), _ => r is Err }')]},
+  'Primitive::into_string': {'kind': 'fn', 'file': P, 'container': IMPL_PRIM, 'name': 'into_string', 'props': ['C08'],
+     'ensures': [('string_only', 'match self { Primitive::String(s) => r == Ok::<PdfString, PdfError>(s), _ => r is Err }')]},
   'RenderingIntent::from_str': {'kind': 'fn', 'file': T, 'container': r'^impl RenderingIntent$', 'name': 'from_str', 'props': ['C08'],
      'ensures': [('table70_intents', 'r == intent_of_str(s@)')],
      'rewrites': r9('s') + [
@@ -168,14 +183,35 @@ UNIT = {
   'OpBuilder::new': {'kind': 'fn', 'file': F, 'container': IMPL_OB, 'name': 'new', 'props': ['C08'],
      'ensures': [('starts_empty', 'r.ops@.len() == 0 && !r.compability_section')]},
   'OpBuilder::add': {'kind': 'fn', 'file': F, 'container': IMPL_OB, 'name': 'add', 'props': ['C08'],
-     'requires': ['args.wf()'],
+     'requires': ['args.i == 0'],
      'ensures': ADD_ENSURES,
      'rewrites': ADD_REWRITES,
      'attrs': ['#[verifier::loop_isolation(false)]'],
      'loops': {1: {'invariant': [
-                      'tj.wf()', 'args0.avail() >= 1 ==> tj.v@ == arr_of(args0.at(0))', 'args0.avail() < 1 ==> tj.v@.len() == 0', 'result@.len() == tj.i',
+                      'tj.wf()', 'args0.v@.len() >= 1 ==> tj.v@ == arr_of(args0.v@[0])', 'args0.v@.len() < 1 ==> tj.v@.len() == 0', 'result@.len() == tj.i',
                       'forall|j: int| 0 <= j < tj.i ==> tj_ok(#[trigger] tj.v@[j]) && result@[j] == tj_item(tj.v@[j])'],
                    'decreases': 'tj.v@.len() - tj.i'}},
   },
+  'OpBuilder::parse': {'kind': 'fn', 'file': F, 'container': IMPL_OB, 'name': 'parse', 'props': ['C08'],
+     # termination is NOT proved (it would need progress assumptions on the abstract lexer): see NOTES.md
+     'attrs': ['#[verifier::exec_allows_no_decreases_clause]'],
+     'ensures': [('ops_only_grow', 'prefix_kept(old(self).ops@, final(self).ops@)')],
+     'loops': {1: {'invariant': [
+                      # the operand buffer holds exactly the operands read since the last operator, in order
+                      ('no_leak', 'buffer@ =~= pending'),
+                      ('ops_only_grow', 'prefix_kept(old(self).ops@, self.ops@)')]}},
+     'rewrites': [
+        # R1: ghost history of the operands read since the last operator
+        {'rule': 'R1', 'find': 'let mut buffer = Vec::with_capacity(5);',
+         'replace': 'let mut buffer = Vec::with_capacity(5); let ghost mut pending: Seq<Primitive> = Seq::empty();'},
+        {'rule': 'R1', 'find': 'Ok(obj) => {', 'replace': 'Ok(obj) => { proof { pending = pending.push(obj); }'},
+        # R6 (operand source) + R1: the operator receives every pending operand and the buffer is empty afterwards
+        {'rule': 'R6', 'find': 'match self.add(operator, buffer.drain(..), &mut lexer, resolve) {',
+         'replace': 'let args = Args::drain_all(&mut buffer); '
+                    'proof { assert(args.rest() =~= pending); assert(buffer@.len() == 0); pending = Seq::empty(); } '
+                    'match self.add(operator, args, &mut lexer, resolve) {'},
+        # R7: Ord::cmp on usize
+        {'rule': 'R7', 'regex': r'match (lexer\.get_pos\(\))\.cmp\(&(data\.len\(\))\)', 'replace': r'match cmp_usize(\1, \2)'},
+     ]},
  },
 }
